@@ -98,20 +98,31 @@ def callee_name(t):
 
 
 def strip_generics(s):
-    """`a::B::<T>::c` / `a::B<T>` -> path without generic arguments."""
+    """`a::B::<T>::c` / `a::B<T>` -> path without generic arguments; the
+    qualified-path form `<T as Trait>::m` keeps its brackets."""
     out = []
-    depth = 0
+    stack = []  # 'g' generic args (dropped) | 'q' qualified path (kept)
     i = 0
-    while i < len(s):
+    n = len(s)
+    while i < n:
         ch = s[i]
+        dropping = "g" in stack
         if ch == "<":
-            # `::<` turbofish: drop the preceding `::`
-            if depth == 0 and out[-2:] == [":", ":"]:
-                out = out[:-2]
-            depth += 1
-        elif ch == ">":
-            depth -= 1
-        elif depth == 0:
+            prev = s[i - 1] if i > 0 else ""
+            is_generic = prev.isalnum() or prev == "_" or (i >= 2 and s[i - 2:i] == "::")
+            if is_generic:
+                if not dropping and out[-2:] == [":", ":"]:
+                    out = out[:-2]
+                stack.append("g")
+            else:
+                stack.append("q")
+                if not dropping:
+                    out.append(ch)
+        elif ch == ">" and stack and not (i > 0 and s[i - 1] == "-"):
+            kind = stack.pop()
+            if kind == "q" and "g" not in stack:
+                out.append(ch)
+        elif not dropping:
             out.append(ch)
         i += 1
     return "".join(out)
